@@ -256,7 +256,7 @@ def run(ck: Check):
     plan = [("MC_ParetoTable_exh_%s.cfg" % ("t" if thorough else "q"), None, None)]
     for i in range(4 if thorough else 1):
         s = ck.seed * 100 + i
-        plan += [("MC_ParetoTable_rand.cfg", s, 1500 if thorough else 600),
+        plan += [("MC_ParetoTable_rand.cfg", s, 1500 if thorough else 1000),
                  ("MC_ParetoTable_rand_big.cfg", s, 40 if thorough else 15)]
     stats = {"dup_rows": 0, "dup_rows_kept": 0, "tlc_validated": 0,
              "exceeds_tight_reservation_reading": 0, "by_tol": {}}
